@@ -669,4 +669,126 @@ func c11GenGlue(rng *rand.Rand, tier string, emit func(string)) {
 		}
 		emit(c11GlueLine(1+rng.Intn(4), 1+rng.Intn(4), argv, tpls))
 	}
+	c11GenGlueLongFlanks(rng, tier, emit) // LAST: the cases above keep their draws
+}
+
+// --fragmented with flanks that are LONG for the pieces (seeded/C11-m7: an overlap clamped to half a piece): -L 2..20, --delta
+// 10 x L .. 45 x L (the overlap L + both primer strings + 2 delta goes from a fifth of a piece of 100 x L to nearly the whole piece; at
+// 50 x L and beyond the cutting loop of IFragments does not advance on the unchanged tree: refused by Exec, not generated), with / without
+// --only-complete-flanking, one template of more than 1000 x L symbols. The products (of the maximal length and shorter) are planted across
+// the piece ends the code computes (starts k x step, ends k x step + 100 x L, step = 100 x L - overlap): the window product + flanks, or
+// the product itself, starts / ends at the boundary + {0, +-1, +-delta/2, +-delta}; also at both ends of the template and at random. The
+// sizes keep the number of symbols of all the pieces (what the model pays for) below ~70 000 per case.
+func c11GenGlueLongFlanks(rng *rand.Rand, tier string, emit func(string)) {
+	Ls := []int{2, 3, 5, 20, 4, 8}
+	if tier == "thorough" {
+		Ls = []int{2, 3, 5, 20, 4, 8, 2, 6, 10, 3, 12, 16, 2, 7}
+	}
+	mults := []int{30, 45, 10, 30, 38, 25, 20, 42, 34, 49, 27, 40, 15, 45}
+	for it, L := range Ls {
+		fl, rl := 8+rng.Intn(6), 8+rng.Intn(6)
+		var fw, rv string
+		if it%2 == 0 {
+			fw, rv = c11RandPrimer(rng, fl, 8), c11RandPrimer(rng, rl, 8)
+		} else {
+			fw, rv = c11GluePrimer(rng, fl, 1), c11GluePrimer(rng, rl, 1)
+		}
+		if len(fw) >= c11MaxPatLen || len(rv) >= c11MaxPatLen {
+			fw, rv = c11RandPrimer(rng, fl, 0), c11RandPrimer(rng, rl, 0)
+		}
+		F, _ := c11Primer(fw)
+		R, _ := c11Primer(rv)
+		length := 100 * L
+		// the smallest step the budget of the model allows (pieces x 100 L <= ~70 000 symbols), never below the products + 1
+		minStep := max(2*L*L, 8)
+		delta := mults[it%len(mults)] * L
+		if it >= len(mults)/2 {
+			delta += rng.Intn(L+1) - L/2
+		}
+		if top := (length - minStep - L - len(fw) - len(rv)) / 2; delta > top {
+			delta = top
+		}
+		overlap := L + len(fw) + len(rv) + 2*delta
+		step := length - overlap
+		if delta < 1 || step < 1 {
+			continue
+		}
+		full := it%2 == 1 || rng.Intn(3) == 0
+		e := 0
+		if rng.Intn(4) == 0 {
+			e = 1
+		}
+		T := 1000*L + 1 + rng.Intn(150*L)
+		t := c11RandSeq(rng, T, "acgt")
+		type iv struct{ a, b int }
+		var used []iv
+		plant := func(p int, gap int, rev bool) {
+			D, C := F, c11RcSets(R)
+			if rev {
+				D, C = R, c11RcSets(F)
+			}
+			prod := c11GlueProduct(rng, D, C, gap, e)
+			if p < 0 || p+len(prod) > T {
+				return
+			}
+			for _, u := range used {
+				if p < u.b+L+1 && u.a < p+len(prod)+L+1 {
+					return
+				}
+			}
+			used = append(used, iv{p, p + len(prod)})
+			c11Plant(t, p, prod, false)
+		}
+		plen := len(F) + L + len(R)
+		plant(0, L, false)
+		plant(T-plen, L, true)
+		var bounds []int
+		for k := 1; k*step < T; k++ {
+			bounds = append(bounds, k*step) // a piece starts here
+			if b := (k-1)*step + length; b < T {
+				bounds = append(bounds, b) // a piece ends here
+			}
+		}
+		rng.Shuffle(len(bounds), func(i, j int) { bounds[i], bounds[j] = bounds[j], bounds[i] })
+		offs := []int{0, 1, -1, delta / 2, -delta / 2, delta, -delta}
+		for q, b := range bounds {
+			if q >= 28 {
+				break
+			}
+			gap := L
+			if rng.Intn(3) == 0 {
+				gap = 1 + rng.Intn(L)
+			}
+			pl := len(F) + gap + len(R)
+			x := b + offs[rng.Intn(len(offs))]
+			switch q % 4 {
+			case 0: // the window starts there
+				plant(x+delta, gap, rng.Intn(2) == 0)
+			case 1: // the window ends there
+				plant(x-delta-pl, gap, rng.Intn(2) == 0)
+			case 2: // the product starts there
+				plant(x, gap, rng.Intn(2) == 0)
+			default: // the product ends there
+				plant(x-pl, gap, rng.Intn(2) == 0)
+			}
+		}
+		for q := 0; q < 6; q++ {
+			plant(rng.Intn(T), L, rng.Intn(2) == 0)
+		}
+		argv := []string{"--forward", fw, "--reverse", rv}
+		argv = append(argv, c11GlueOpt(rng, "max-length", "L", strconv.Itoa(L))...)
+		argv = append(argv, c11GlueOpt(rng, "delta", "D", strconv.Itoa(delta))...)
+		if e > 0 {
+			argv = append(argv, c11GlueOpt(rng, "allowed-mismatches", "e", strconv.Itoa(e))...)
+		}
+		if full {
+			argv = append(argv, "--only-complete-flanking")
+		}
+		argv = append(argv, "--fragmented")
+		tpls := [][]byte{t}
+		if rng.Intn(2) == 0 { // a short template (searched whole) beside the long one
+			tpls = append(tpls, append(c11RandSeq(rng, rng.Intn(delta+2), "acgt"), c11GlueProduct(rng, F, c11RcSets(R), L, 0)...))
+		}
+		emit(c11GlueLine(1+rng.Intn(2), 1+rng.Intn(4), argv, tpls))
+	}
 }
